@@ -2,7 +2,7 @@
    pointer-level reading of well-formedness (HeapOK). *)
 From Coq Require Import List ZArith Bool Arith Lia Permutation.
 From NT Require Import Sx Rose ListFacts RoseFacts Surgery SurgeryFacts Machine WF MachineFacts PreserveSteps PreserveOps
-  PreserveKeepClones Invariant Heap HeapProofs HeapRemove HeapMore HeapMove HeapShort HeapKeep HeapData.
+  PreserveKeepClones Invariant Heap HeapProofs HeapRemove HeapMore HeapMove HeapShort HeapKeep HeapData HeapCopy.
 Import ListNotations.
 
 (* operations whose simulation proof is closed *)
@@ -20,6 +20,11 @@ Definition covered_heap (o : op) : bool :=
   | OShort _ _ _ _ _ _ => true
   | OSetData _ _ _ _ _ => true
   | ORename _ _ _ => true
+  | OAddNode _ _ _ _ _ _ _ _ => true
+  | OAddTree _ _ _ _ _ => true
+  | OCopyTo _ _ _ _ _ _ _ => true
+  | OTreeCopy _ => true
+  | ONodeCopy _ _ _ => true
   | _ => false
   end.
 
@@ -31,6 +36,11 @@ Proof.
   intros C W RW. destruct o; cbn [covered_heap] in C; try discriminate C; cbn [h_step step].
   - now apply sim_op_add.
   - now apply sim_op_shortcut.
+  - now apply sim_op_add_node.
+  - now apply sim_op_add_tree.
+  - now apply sim_op_copy_to.
+  - now apply sim_op_tree_copy.
+  - now apply sim_op_node_copy.
   - now apply sim_op_move.
   - destruct keep; [now apply sim_op_remove_keep|now apply sim_op_remove_plain].
   - now apply sim_op_remove_children.
